@@ -575,6 +575,153 @@ def run_directory(ctx):
     return len(inst)
 
 
+# ------------------------------------------------------------------------------------------ directory mutators
+REBUILD_SCRIPT = r"""
+import json, sys
+sys.path.insert(0, sys.argv[1])
+import armi
+if not armi.isConfigured():
+    armi.configure(permissive=True)
+from armi.nucDirectory import nuclideBases as nb, elements
+old = {id(n) for n in nb.instances}
+nOld = len(nb.instances)
+out = {"raised": None}
+try:
+    nb.destroyGlobalNuclides()
+    nb.factory()
+except Exception as e:
+    out["raised"] = repr(e)
+new = {id(n) for n in nb.instances}
+out["instances"] = [nOld, len(nb.instances)]
+stale, missing, wrongcount = [], [], []
+for z, e in elements.byZ.items():
+    st = [n.name for n in e.nuclides if id(n) not in new]
+    if st:
+        stale.append([e.symbol, len(st), st[:3]])
+    have = {id(n) for n in e.nuclides}
+    ms = [n.name for n in nb.instances if n.z == z and id(n) not in have]
+    if ms:
+        missing.append([e.symbol, len(ms), ms[:3]])
+out["stale"], out["missing"] = stale[:5], missing[:5]
+out["nstale"], out["nmissing"] = len(stale), len(missing)
+bad = []
+for d, name in ((nb.byName, "byName"), (nb.byLabel, "byLabel"), (nb.byDBName, "byDBName"), (nb.byMcnpId, "byMcnpId"),
+                (nb.byAAAZZZSId, "byAAAZZZSId"), (nb.byMcc2Id, "byMcc2Id"), (nb.byMcc3Id, "byMcc3Id")):
+    k = sum(1 for v in d.values() if id(v) not in new)
+    if k:
+        bad.append([name, k])
+    if not d:
+        bad.append([name, "empty"])
+out["staleIndexEntries"] = bad
+out["elementOfNuclideStale"] = sum(1 for n in nb.instances if n.element is not elements.byZ.get(n.z))
+print("REBUILD-RESULT " + json.dumps(out))
+"""
+
+
+def run_mutators(ctx):
+    """public mutators of the process-global directory keep the indices truthful (labels restored afterwards)"""
+    import json
+    import subprocess
+    import sys as _sys
+
+    from armi.nucDirectory import nuclideBases as nb
+
+    inst = list(nb.instances)
+    snap = {name: dict(getattr(nb, name)) for name in ("byName", "byDBName", "byLabel", "byMcnpId", "byAAAZZZSId", "byMcc2Id",
+                                                        "byMcc3IdEndfbVII0", "byMcc3IdEndfbVII1")}
+    labels0 = {id(n): n.label for n in inst}
+    picks = [nb.byName[x] for x in ("U235", "PU239", "AM242M", "FE56", "NA23", "FE", "LFP35")]
+    picks += ctx.rng.sample([n for n in inst if isinstance(n, nb.NuclideBase)], 4)
+
+    def truthful(case, relabelled):
+        """every nuclide is found under its CURRENT label; the other indices are untouched"""
+        for n in inst:
+            if nb.byLabel.get(n.label) is not n:
+                ctx.fail("changeLabel-current-label-resolves", "after changeLabel every nuclide is found in byLabel under its current label",
+                         dict(case, nuclide=n.name, label=n.label), observed=getattr(nb.byLabel.get(n.label), "name", None))
+                break
+        for name in snap:
+            if name != "byLabel":
+                d = getattr(nb, name)
+                if d.keys() != snap[name].keys() or any(d[k] is not snap[name][k] for k in d):
+                    ctx.fail("changeLabel-other-indices-changed", "changeLabel leaves the other indices unchanged", dict(case, index=name))
+        for n, old in relabelled:
+            if old != n.label and nb.byLabel.get(old) is n:
+                ctx.count("oracle: old label still resolves after changeLabel")
+                if ctx.hist["oracle: old label still resolves after changeLabel"] <= 2:
+                    ctx.fail("changeLabel-old-label-still-resolves", "after changeLabel the old label no longer resolves to the nuclide",
+                             dict(case, nuclide=n.name, oldLabel=old, newLabel=n.label), observed=n.name, expected=None)
+
+    fresh = iter(f"Zq{i:02d}" for i in range(100))
+    try:
+        for k, n in enumerate(picks):
+            orig = n.label
+            case = {"nuclide": n.name, "label": orig}
+            # idempotent relabel
+            nb.changeLabel(n, orig)
+            truthful(dict(case, sequence=["relabel to the current label"]), [(n, orig)])
+            ctx.case(("changeLabel", "idempotent", n.name), nontrivial=True)
+            # away and back
+            tmp = next(fresh)
+            while tmp in nb.byLabel:
+                tmp = next(fresh)
+            nb.changeLabel(n, tmp)
+            truthful(dict(case, sequence=["relabel to " + tmp]), [(n, orig)])
+            nb.changeLabel(n, orig)
+            truthful(dict(case, sequence=["relabel to " + tmp, "relabel back"]), [(n, tmp)])
+            ctx.case(("changeLabel", "away-and-back", n.name), nontrivial=True)
+        # several nuclides relabelled, then restored in another order
+        temps = []
+        for n in picks[:5]:
+            tmp = next(fresh)
+            temps.append((n, n.label, tmp))
+            nb.changeLabel(n, tmp)
+        truthful({"sequence": ["relabel five nuclides"]}, [(n, old) for n, old, _ in temps])
+        for n, old, tmp in reversed(temps):
+            nb.changeLabel(n, old)
+        truthful({"sequence": ["relabel five nuclides", "restore in reverse order"]}, [(n, tmp) for n, _, tmp in temps])
+        ctx.case(("changeLabel", "several"), nontrivial=True)
+        # addGlobalNuclide refuses a nuclide that is already there and leaves the directory alone
+        u = nb.byName["U235"]
+        try:
+            nb.addGlobalNuclide(u)
+            ctx.fail("addGlobalNuclide-duplicate-accepted", "adding a nuclide that already exists is refused", {"nuclide": "U235"})
+        except ValueError:
+            pass
+        if len(nb.instances) != len(inst) or any(a is not b for a, b in zip(nb.instances, inst)):
+            ctx.fail("addGlobalNuclide-duplicate-changes-directory", "a refused addition leaves the directory unchanged", {"nuclide": "U235"})
+    except common.Infra:
+        raise
+    except Exception as e:  # noqa  (a mutator that raises on a legal call sequence)
+        ctx.fail("directory-mutator-raises", "changeLabel / addGlobalNuclide sequences on existing nuclides do not raise unexpectedly",
+                 {"sequence": "changeLabel idempotent / away-and-back / several; duplicate addGlobalNuclide"}, observed=repr(e))
+    finally:
+        for n in inst:
+            n.label = labels0[id(n)]
+        nb.byLabel.clear()
+        nb.byLabel.update(snap["byLabel"])
+    # destroyGlobalNuclides + factory: in a SUBPROCESS (the directory is process-global and other modules hold its objects)
+    p = subprocess.run([_sys.executable, "-c", REBUILD_SCRIPT, common.REPO], capture_output=True, text=True, timeout=600,
+                       cwd=os.environ.get("VERIF_TMP") or "/tmp", env=dict(os.environ, TERRAPOWER_ARMI_VERIF="1"))
+    line = [l for l in p.stdout.split("\n") if l.startswith("REBUILD-RESULT ")]
+    if not line:
+        raise common.Infra("rebuild subprocess gave no result: " + (p.stderr or p.stdout)[-800:])
+    res = json.loads(line[0][len("REBUILD-RESULT "):])
+    ctx.case(("rebuild",), nontrivial=True)
+    ctx.extra["directory_rebuild"] = res
+    if res["raised"]:
+        ctx.fail("rebuild-raises", "destroyGlobalNuclides() + factory() rebuilds the directory", {}, observed=res["raised"])
+    if res["instances"][0] != res["instances"][1]:
+        ctx.fail("rebuild-instance-count", "a rebuilt directory has the same nuclides", {}, observed=res["instances"])
+    if res["nstale"] or res["nmissing"]:
+        ctx.fail("rebuild-elements-hold-stale-nuclides",
+                 "after a rebuild every element lists the NEW nuclide objects and no stale ones", {"sequence": ["destroyGlobalNuclides", "factory"]},
+                 observed={"elements with stale objects": res["nstale"], "elements missing new objects": res["nmissing"],
+                           "examples": res["stale"][:2]})
+    if res["staleIndexEntries"]:
+        ctx.fail("rebuild-indices-stale", "after a rebuild every by* index refers to the new objects only", {}, observed=res["staleIndexEntries"])
+
+
 # ------------------------------------------------------------------------------------------ materials half
 ABSTRACT_MODULES = ("material", "custom", "void", "mixture")
 DENSITY_KEYS = ("density", "pseudoDensity")
@@ -761,6 +908,7 @@ def run_materials(ctx):
 
 def run(ctx):
     n = run_directory(ctx)
+    run_mutators(ctx)
     nm = run_materials(ctx)
     ctx.extra["materials_half"] = ("exhaustive enumeration of the finite material library at SAMPLED temperatures (grid over each "
                                    "property's stated range, exact end points, 0.25 K steps in the top/bottom 3 K) - testing, not a theorem")
@@ -781,7 +929,9 @@ def replay(ctx, payload):
         hits = [f for f in scan_tables() if f.key == key]
         if hits:
             return hits[0].to_json()
-    if key.startswith("material-"):
+    if key.startswith(("changeLabel-", "rebuild-", "addGlobalNuclide-")):
+        run_mutators(sub)
+    elif key.startswith("material-"):
         run_materials(sub)
     else:
         run_directory(sub)
